@@ -429,6 +429,7 @@ class BaseParser:
     ):
         addition = {}
         result = {}
+        provided = {}   # the raw input taken for each field, to compare aliases like with like
         dependencies = set()
         unprovided_fields = set()
         options = context.options
@@ -453,14 +454,15 @@ class BaseParser:
                 continue
 
             if not options.ignore_alias_conflicts:
-                if name in result:  # or (excluded_keys and name in excluded_keys):
-                    if result[name] != value:
+                if name in provided:  # or (excluded_keys and name in excluded_keys):
+                    if provided[name] != value:
                         context.handle_error(exc.AliasConflictError(item=name, value=value))
                     continue
 
             if excluded_keys and name in excluded_keys:
                 continue
 
+            provided[name] = value
             parsed = field.parse_value(value, context=context)
             if unprovided(parsed):
                 continue
